@@ -795,6 +795,11 @@ pub fn c06(rec: &mut Rec, rng: &mut Rng, thorough: bool) {
                 }
                 _ => {
                     let unsent = expected.len().saturating_sub(accepted.len());
+                    // pending output is reported exactly while a byte remains unsent — judged against the harness's own
+                    // bookkeeping (what was enqueued since the last discard minus what the stream accepted)
+                    if d.pending_write() != (unsent > 0) {
+                        rec.oracle_fail("C06", &format!("pending_write = {} but {} enqueued bytes are unsent", d.pending_write(), unsent), &d.log);
+                    }
                     let w = match rng.below(12) {
                         0 => WAct::Intr,
                         1 => WAct::Zero,
